@@ -180,7 +180,18 @@ def vfRun (pre : List Pred) (hasReturn : Bool) : Run :=
     if hasReturn then ⟨.body "return", [.preconditions, .locals, .returnValue]⟩
     else ⟨.body "null", [.preconditions]⟩
 
-/-- what the Kubernetes part of a ResourceFunction did -/
+/-- the kind-to-plural discovery at the start of `reconcile_krm_resource` (after `apiConfig` was
+    evaluated): not needed when `apiConfig.plural` is given or the plural is already cached;
+    otherwise one request to the cluster (`api.lookup_kind`), which may not know the kind -/
+inductive Lookup where
+  | notNeeded | found | unknownKind
+  deriving Repr, DecidableEq, Inhabited
+
+def Lookup.trace : Lookup → List Ev
+  | .notNeeded => []
+  | _ => [.api]
+
+/-- what the Kubernetes part of a ResourceFunction did after the discovery -/
 inductive Crud where
   | okReadonly       -- GET found the object, readonly
   | okMatch          -- GET found the object, template evaluated, it matched
@@ -188,25 +199,29 @@ inductive Crud where
   deriving Repr, DecidableEq, Inhabited
 
 def Crud.trace : Crud → List Ev
-  | .okReadonly => [.apiConfig, .api]
-  | .okMatch => [.apiConfig, .api, .resource]
-  | .createRetry => [.apiConfig, .api, .resource, .api]
+  | .okReadonly => [.api]
+  | .okMatch => [.api, .resource]
+  | .createRetry => [.api, .resource, .api]
 
 def Crud.isOk : Crud → Bool
   | .createRetry => false
   | _ => true
 
-/-- `reconcile_resource_function`: preconditions, locals, the Kubernetes part, then — only if
-    that part produced an object — postconditions, then return -/
-def rfRun (pre post : List Pred) (crud : Crud) : Run :=
+/-- `reconcile_resource_function`: preconditions, locals, the Kubernetes part (apiConfig, plural
+    discovery, GET, …), then — only if that part produced an object — postconditions, then return -/
+def rfRun (pre post : List Pred) (lk : Lookup) (crud : Crud) : Run :=
   match decide pre with
   | some d => ⟨.decided d, [.preconditions]⟩
   | none =>
-    let t := [Ev.preconditions, .locals] ++ crud.trace
-    if crud.isOk then
-      match decide post with
-      | some d => ⟨.decided d, t ++ [.postconditions]⟩
-      | none => ⟨.body "return", t ++ [.postconditions, .returnValue]⟩
-    else ⟨.body "retry", t⟩
+    let t := [Ev.preconditions, .locals, .apiConfig] ++ lk.trace
+    match lk with
+    | .unknownKind => ⟨.body "lookupFailed", t⟩
+    | _ =>
+      let t := t ++ crud.trace
+      if crud.isOk then
+        match decide post with
+        | some d => ⟨.decided d, t ++ [.postconditions]⟩
+        | none => ⟨.body "return", t ++ [.postconditions, .returnValue]⟩
+      else ⟨.body "retry", t⟩
 
 end Koreo.Predicates
